@@ -20,7 +20,7 @@ use rustc_middle::mir::{
     AggregateKind, BasicBlock, Body, Const, ConstValue, Operand, Place, PlaceElem, Rvalue,
     StatementKind, TerminatorKind, UnwindAction,
 };
-use rustc_middle::ty::print::{with_crate_prefix, with_no_trimmed_paths};
+use rustc_middle::ty::print::{with_crate_prefix, with_no_trimmed_paths, with_no_visible_paths};
 use rustc_middle::ty::{self, Ty, TyCtxt, TypingEnv};
 use rustc_span::Span;
 use std::fmt::Write as _;
@@ -76,11 +76,19 @@ impl<'tcx> Cx<'tcx> {
         o
     }
     fn path(&self, d: DefId) -> String {
-        let s = with_crate_prefix!(with_no_trimmed_paths!(self.tcx.def_path_str(d)));
+        let s = with_crate_prefix!(with_no_visible_paths!(with_no_trimmed_paths!(self.tcx.def_path_str(d))));
         self.fixc(s)
     }
+    /// unique id: crate name + verbose def path (with disambiguators)
+    fn id(&self, d: DefId) -> String {
+        format!(
+            "{}{}",
+            self.tcx.crate_name(d.krate),
+            self.tcx.def_path(d).to_string_no_crate_verbose()
+        )
+    }
     fn ty_s(&self, t: Ty<'tcx>) -> String {
-        let s = with_crate_prefix!(with_no_trimmed_paths!(format!("{}", t)));
+        let s = with_crate_prefix!(with_no_visible_paths!(with_no_trimmed_paths!(format!("{}", t))));
         self.fixc(s)
     }
     fn span_s(&self, sp: Span) -> String {
@@ -113,13 +121,13 @@ impl<'tcx> Cx<'tcx> {
                         }
                     }
                     ty::Closure(d, _) => {
-                        let p = format!("closure:{}", self.path(*d));
+                        let p = format!("closure:{}", self.id(*d));
                         if !v.contains(&p) {
                             v.push(p);
                         }
                     }
                     ty::Coroutine(d, _) => {
-                        let p = format!("coroutine:{}", self.path(*d));
+                        let p = format!("coroutine:{}", self.id(*d));
                         if !v.contains(&p) {
                             v.push(p);
                         }
@@ -169,8 +177,8 @@ impl<'tcx> Cx<'tcx> {
                         }
                         match pty.ty.kind() {
                             ty::Tuple(_) => on = "tuple".to_string(),
-                            ty::Closure(d, _) => on = format!("closure:{}", self.path(*d)),
-                            ty::Coroutine(d, _) => on = format!("coroutine:{}", self.path(*d)),
+                            ty::Closure(d, _) => on = format!("closure:{}", self.id(*d)),
+                            ty::Coroutine(d, _) => on = format!("coroutine:{}", self.id(*d)),
                             _ => {}
                         }
                         let _ = write!(s, "{{\"f\":{},\"name\":{},\"on\":{}}}", f.as_usize(), esc(&name), esc(&on));
@@ -200,7 +208,7 @@ impl<'tcx> Cx<'tcx> {
     fn fn_ref(&self, owner: LocalDefId, def: DefId, args: ty::GenericArgsRef<'tcx>) -> String {
         let tcx = self.tcx;
         let path = self.path(def);
-        let mut s = format!("{{\"path\":{}", esc(&path));
+        let mut s = format!("{{\"path\":{},\"id\":{}", esc(&path), esc(&self.id(def)));
         // substs
         s.push_str(",\"substs\":[");
         let mut first = true;
@@ -215,7 +223,7 @@ impl<'tcx> Cx<'tcx> {
                 for w in t.walk() {
                     if let Some(wt) = w.as_type() {
                         if let ty::Closure(d, _) | ty::Coroutine(d, _) = wt.kind() {
-                            let p = self.path(*d);
+                            let p = self.id(*d);
                             if !closures.contains(&p) {
                                 closures.push(p);
                             }
@@ -267,7 +275,7 @@ impl<'tcx> Cx<'tcx> {
                 if let Ok(Ok(Some(inst))) = r {
                     let rd = inst.def_id();
                     if rd != def {
-                        let _ = write!(s, ",\"resolved\":{}", esc(&self.path(rd)));
+                        let _ = write!(s, ",\"resolved\":{},\"resolved_id\":{}", esc(&self.path(rd)), esc(&self.id(rd)));
                         if let Some(ip) = tcx.opt_parent(rd) {
                             if matches!(tcx.def_kind(ip), DefKind::Impl { .. }) {
                                 let st = tcx.type_of(ip).instantiate_identity().skip_norm_wip();
@@ -291,7 +299,7 @@ impl<'tcx> Cx<'tcx> {
                 let _ = write!(s, ",\"fn\":{}", self.fn_ref(owner, *d, args));
             }
             ty::Closure(d, _) => {
-                let _ = write!(s, ",\"closure\":{}", esc(&self.path(*d)));
+                let _ = write!(s, ",\"closure\":{}", esc(&self.id(*d)));
             }
             _ => {}
         }
@@ -328,7 +336,7 @@ impl<'tcx> Cx<'tcx> {
                     if let Some(ga) = tcx.try_get_global_alloc(aid) {
                         match ga {
                             GlobalAlloc::Static(d) => {
-                                let _ = write!(s, ",\"static\":{}", esc(&self.path(d)));
+                                let _ = write!(s, ",\"static\":{}", esc(&self.id(d)));
                             }
                             GlobalAlloc::Function { instance } => {
                                 let _ = write!(s, ",\"fnptr\":{}", esc(&self.path(instance.def_id())));
@@ -347,7 +355,7 @@ impl<'tcx> Cx<'tcx> {
                 _ => {}
             },
             Const::Unevaluated(u, _) => {
-                let _ = write!(s, ",\"uneval\":{}", esc(&self.path(u.def)));
+                let _ = write!(s, ",\"uneval\":{}", esc(&self.id(u.def)));
                 if u.promoted.is_some() {
                     s.push_str(",\"promoted\":true");
                 }
@@ -404,7 +412,7 @@ impl<'tcx> Cx<'tcx> {
                 esc(&self.ty_s(*t)),
                 esc(&format!("{:?}", k).split('(').next().unwrap_or("").to_string())
             ),
-            Rvalue::ThreadLocalRef(d) => format!("{{\"tlref\":{}}}", esc(&self.path(*d))),
+            Rvalue::ThreadLocalRef(d) => format!("{{\"tlref\":{}}}", esc(&self.id(*d))),
             Rvalue::Repeat(o, _) => format!("{{\"repeat\":{}}}", self.operand(owner, body, o)),
             Rvalue::Aggregate(k, ops) => {
                 let kind = match &**k {
@@ -420,12 +428,12 @@ impl<'tcx> Cx<'tcx> {
                             vi.as_usize()
                         )
                     }
-                    AggregateKind::Closure(d, _) => format!("{{\"closure\":{}}}", esc(&self.path(*d))),
+                    AggregateKind::Closure(d, _) => format!("{{\"closure\":{}}}", esc(&self.id(*d))),
                     AggregateKind::Coroutine(d, _) => {
-                        format!("{{\"coroutine\":{}}}", esc(&self.path(*d)))
+                        format!("{{\"coroutine\":{}}}", esc(&self.id(*d)))
                     }
                     AggregateKind::CoroutineClosure(d, _) => {
-                        format!("{{\"closure\":{}}}", esc(&self.path(*d)))
+                        format!("{{\"closure\":{}}}", esc(&self.id(*d)))
                     }
                     AggregateKind::RawPtr(..) => "\"rawptr\"".to_string(),
                 };
@@ -718,10 +726,11 @@ impl<'tcx> Cx<'tcx> {
                 let tl = is_static && tcx.is_thread_local_static(did);
                 let _ = write!(
                     s,
-                    "{}:{{\"ty\":{},\"parent_fn\":{},\"thread_local\":{},\"kind\":{},\"span\":{}}}",
+                    "{}:{{\"path\":{},\"ty\":{},\"parent_fn\":{},\"thread_local\":{},\"kind\":{},\"span\":{}}}",
+                    esc(&self.id(did)),
                     esc(&self.path(did)),
                     esc(&self.ty_s(t)),
-                    pfn.map(|p| esc(&self.path(p))).unwrap_or("null".to_string()),
+                    pfn.map(|p| esc(&self.id(p))).unwrap_or("null".to_string()),
                     tl,
                     esc(if is_static { "static" } else { "const" }),
                     esc(&self.span_s(tcx.def_span(did)))
@@ -775,9 +784,9 @@ impl<'tcx> Cx<'tcx> {
                 s.push(',');
             }
             first = false;
-            let _ = write!(s, "{}:{{\"kind\":{}", esc(&self.path(did)), esc(kind));
+            let _ = write!(s, "{}:{{\"path\":{},\"kind\":{}", esc(&self.id(did)), esc(&self.path(did)), esc(kind));
             if let Some(p) = tcx.opt_parent(did) {
-                let _ = write!(s, ",\"parent\":{}", esc(&self.path(p)));
+                let _ = write!(s, ",\"parent\":{}", esc(&self.id(p)));
                 if matches!(tcx.def_kind(p), DefKind::Impl { .. }) {
                     let st = tcx.type_of(p).instantiate_identity().skip_norm_wip();
                     let _ = write!(s, ",\"impl_self\":{}", esc(&self.ty_s(st)));
